@@ -116,7 +116,7 @@ Qed.
 
 (* ---- extended to `break`, the endless `repeat`, calls of routines and `return` (Lang/Simulation3.v, SimulationTop.v) ----
    Every program made of routine definitions (at the top level, each name once; routines may call each other and themselves) and of the covered
-   statements, if / else, blocks, `repeat while`, counted `repeat n`, `repeat with v from a to b`, `repeat n with v from a to b`, `repeat n with v cycle`, `repeat all / group / location as x [with ...]`, plain `repeat`, `break`, calls `f a b ...` whose arguments
+   statements, if / else, blocks, `repeat while`, counted `repeat n`, `repeat with v from a to b`, `repeat n with v from a to b`, `repeat n with v cycle`, `repeat all / group / location as x [with ...]`, `repeat in ... and ... as x [with ...]`, plain `repeat`, `break`, calls `f a b ...` whose arguments
    are ordinary values, and `return`, nested to any depth: the compiled code, loaded (routine bodies moved out of line) and run
    on the machine model from the initial state, finishes with exactly the events of the reference semantics. *)
 From Bardolph Require Import Lang.Builtins Lang.CallFrames Lang.Simulation3 Lang.SimulationTop.
@@ -170,6 +170,8 @@ Example C01_program_nonvacuous :
             SRepeat (LAll "x" (Some (WRange "b" (RLit (LInt 10)) (RLit (LInt 90)))))
                     (SBlock [SReg R_BRIGHTNESS (RVar "b"); SSet (OpList [Target TLight (NVar "x")]); SIf (RExpr (EBin BGt (EVar "b") (ELit (LInt 60)))) SBreak None;
                              SRepeat (LGroups "g" None) (SBlock [SPrint (Some (RVar "g")); SOn (OpList [Target TGroup (NVar "g")])])]);
+            SRepeat (LIn [SrcLight (RLit (LStr "b")); SrcGroup (RLit (LStr "g")); SrcLight (RVar "x"); SrcLocation (RLit (LStr "nowhere"))] "y" (Some (WRange "s" (RLit (LInt 0)) (RLit (LInt 100)))))
+                    (SBlock [SReg R_SATURATION (RVar "s"); SSet (OpList [Target TLight (NVar "y")])]);
             SRepeat (LLocations "q" (Some (WCycle "h" None))) (SBlock [SReg R_HUE (RVar "h"); SSet (OpList [Target TLocation (NVar "q")]); SCall "down" [RLit (LInt 1)] false]);
             SPrintln (Some (RVar "total"))] in
   let w := [mkLight "a" "g" "l" KPlain [0; 0; 0; 0]; mkLight "" "g" "m" KPlain [0; 0; 0; 0]; mkLight "c" "" "l" KPlain [0; 0; 0; 0]; mkLight "b" "h" "l" KPlain [0; 0; 0; 0]] in
